@@ -28,7 +28,7 @@
     * every probe of an old handle returns NNG_ECLOSED or NNG_ENOENT.
 -/
 import NngModel.Proto.LifeBase
-import NngModel.Generated.Consts
+import NngModel.Generated.C14
 namespace Nng.LifeSpec
 open Nng.Life
 
